@@ -162,6 +162,16 @@ func init() {
 				if _, isObj := patch.(map[string]any); !isObj || ref.ContainsEmptyObject(patch) || patch == nil {
 					patch = map[string]any{"k": float64(k)}
 				}
+				if i%3 == 0 {
+					// an empty object written under a key the document does not have yet (jd and the RFC agree here),
+					// then filled by the next patch: values taken from a patch must not be shared between documents
+					key := fmt.Sprintf("fresh%d", i%5)
+					if k == 0 {
+						patch = map[string]any{key: map[string]any{}}
+					} else if k == 1 {
+						patch = map[string]any{key: map[string]any{"cpu": float64(i % 7), "mem": "x"}}
+					}
+				}
 				pText := ref.ToJSON(patch)
 				texts = append(texts, pText)
 				c.Input(fmt.Sprintf("patch_%d", k+1), pText)
@@ -183,6 +193,16 @@ func init() {
 						map[string]any{"jd_result": ref.ToJSON(got), "rfc_result": ref.ToJSON(want)})
 					return
 				}
+			}
+			// canary: an unrelated document and the patch {"z":{}} after all of the above
+			cd, _ := jd.ReadMergeString(`{"z":{}}`)
+			if cp, err := ReadJ(`{"q":1}`).Patch(cd); err != nil || !ref.Eq(Plain(cp), ref.MustJSON(`{"q":1,"z":{}}`), ref.List) {
+				got := ""
+				if cp != nil {
+					got = cp.Json()
+				}
+				c.Violation("after a patch sequence, an unrelated merge patch {\"z\":{}} on {\"q\":1} no longer gives {\"q\":1,\"z\":{}} (state shared between patches)", map[string]any{"jd_result": got})
+				return
 			}
 			c.Nontrivial(joinKey(tText, joinKey(texts...)))
 		},
